@@ -79,6 +79,19 @@ pub fn run(a: &Args) {
             let hex: String = p.bytes().map(|b| format!("{b:02x}")).collect(); let pages = (f.bytes.len() as u64 - f.offset + 4095) / 4096;
             lines.push(format!("filex {hex} {} {pages} {}", f.offset, f.perms)); }
         let hex: String = shm_path.bytes().map(|b| format!("{b:02x}")).collect(); lines.push(format!("filex {hex} 0 2 r-x"));
+        // two different libraries embedded in ONE file, each mapped executable from its own offset, far apart
+        let mut multi: Vec<(String, u64, Vec<u8>, String)> = Vec::new();
+        {
+            let p = format!("{dir}/multi.apk");
+            let (ia, ib) = (rid(&mut rng), rid(&mut rng));
+            let a_img = synth_so(&rtext(&mut rng, 40), Some(&ia), Some("libfirst.so"));
+            let b_img = synth_so(&rtext(&mut rng, 72), Some(&ib), Some("libsecond.so"));
+            let mut bytes = vec![0xEEu8; 4096]; bytes.extend_from_slice(&a_img); bytes.resize(8192, 0); bytes.extend_from_slice(&b_img);
+            std::fs::write(&p, &bytes).unwrap();
+            let hex: String = p.bytes().map(|b| format!("{b:02x}")).collect();
+            lines.push(format!("filexat 30000000 {hex} 4096 1 r-x")); lines.push(format!("filexat 31000000 {hex} 8192 1 r-x"));
+            multi.push((p.clone(), 4096, ia, "libfirst.so".into())); multi.push((p, 8192, ib, "libsecond.so".into()));
+        }
         // every other case: an anonymous mapping and a file-backed module BELOW the executable, so that the module
         // holding the program entry point is not the first line of the memory map
         if case % 2 == 0 {
@@ -115,28 +128,29 @@ pub fn run(a: &Args) {
         let img = match res { Ok(Ok(i)) => i, other => { let mut l = Line::new("const"); l.u(1); out.case(l.s(), &format!("!dump failed: {other:?}").replace('\n', " ").chars().take(300).collect::<String>(), true); cleanup(); continue; } };
         // identification table by mapped name: harness-written files by construction, everything else by the independent reader
         let mut line = Line::new("c08"); maps_tokens(&mut line, &world);
-        let mut names: Vec<Vec<u8>> = Vec::new();
-        for m in world.lines() { if let Some(n) = classified(&m.name) { if !names.contains(&n) { names.push(n); } } }
-        if world.auxv_value(33).is_some() { names.push(b"linux-gate.so".to_vec()); }
-        let mut tbl: Vec<(Vec<u8>, Option<Vec<u8>>, Option<Vec<u8>>)> = Vec::new();
-        for n in &names {
+        // one entry per (mapped name, file offset of a line with that name): one file can hold several images
+        let mut keys: Vec<(Vec<u8>, u64)> = Vec::new();
+        for m in world.lines() { if let Some(n) = classified(&m.name) { if !keys.contains(&(n.clone(), m.offset)) { keys.push((n, m.offset)); } } }
+        if world.auxv_value(33).is_some() { keys.push((b"linux-gate.so".to_vec(), 0)); }
+        let mut tbl: Vec<(Vec<u8>, u64, Option<Vec<u8>>, Option<Vec<u8>>)> = Vec::new();
+        for (n, off) in &keys {
             let s = String::from_utf8_lossy(n).into_owned();
-            if let Some(f) = files.iter().find(|f| s == format!("{dir}/{}", f.name)) {
-                // the ELF image of an embedded library starts at a non-zero file offset: the file as a whole is not an ELF
-                if f.offset > 0 { tbl.push((n.clone(), f.id.clone(), f.soname.clone().map(|x| x.into_bytes()))); }
-                else if f.name == "notelf.bin" { tbl.push((n.clone(), None, None)); }
-                else { tbl.push((n.clone(), f.id.clone(), f.soname.clone().map(|x| x.into_bytes()))); }
+            if let Some((_, _, id, so)) = multi.iter().find(|(p, o, _, _)| *p == s && o == off) {
+                tbl.push((n.clone(), *off, Some(id.clone()), Some(so.clone().into_bytes())));
+            } else if let Some(f) = files.iter().find(|f| s == format!("{dir}/{}", f.name)) {
+                if f.name == "notelf.bin" { tbl.push((n.clone(), *off, None, None)); }
+                else { tbl.push((n.clone(), *off, f.id.clone(), f.soname.clone().map(|x| x.into_bytes()))); }
             } else if s == "linux-gate.so" {
                 let g = world.auxv_value(33).unwrap();
                 let mem = read_mem(target.pid, g, 2 * 4096).unwrap_or_default();
-                tbl.push((n.clone(), indep_build_id_pub(&mem), indep_soname_pub(&mem)));
+                tbl.push((n.clone(), *off, indep_build_id_pub(&mem), indep_soname_pub(&mem)));
             } else if s.starts_with('/') && !s.starts_with("/dev/") {
                 let b = std::fs::read(&s).unwrap_or_default();
-                tbl.push((n.clone(), indep_build_id_pub(&b), indep_soname_pub(&b)));
-            } else { tbl.push((n.clone(), None, None)); }
+                tbl.push((n.clone(), *off, indep_build_id_pub(&b), indep_soname_pub(&b)));
+            } else { tbl.push((n.clone(), *off, None, None)); }
         }
         line.z(tbl.len());
-        for (n, id, so) in &tbl { line.vec(n); match id { Some(i) => { line.u(1).vec(i); } None => { line.u(0).u(0); } } match so { Some(s) => { line.u(1).vec(s); } None => { line.u(0).u(0); } } }
+        for (n, off, id, so) in &tbl { line.vec(n).u(*off); match id { Some(i) => { line.u(1).vec(i); } None => { line.u(0).u(0); } } match so { Some(s) => { line.u(1).vec(s); } None => { line.u(0).u(0); } } }
         line.z(users.len()); for (s, sz, n, id) in &users { line.u(*s).u(*sz).vec(n.as_bytes()).vec(id); }
         let mut r = Line::bare();
         match md::Dump::parse(&img).and_then(|d| d.modules(&img)) {
